@@ -27,6 +27,7 @@ pub fn exec_more(t: &[&str]) -> R {
             with_v!(b, V => with_sealing_kind!(k, K => {
                 let wk = key_of::<V, Local>(&wk).map_err(en)?;
                 let w = PieWrappedKey::<V, K>::from_str(&s).map_err(en)?;
+                let _ = w.to_string();
                 let key = w.unwrap(&wk).map_err(en)?;
                 if re { Ok("same=1".to_string()) } else { Ok(hex(key.expose_key().as_raw_bytes())) }
             }, else Err(bad())))
@@ -36,6 +37,8 @@ pub fn exec_more(t: &[&str]) -> R {
             let re = t[0] == "pw.re";
             with_v!(b, V => with_sealing_kind!(k, K => {
                 let w = PasswordWrappedKey::<V, K>::from_str(&s).map_err(en)?;
+                let _ = w.params();
+                let _ = w.to_string();
                 let key = w.unwrap(&pass).map_err(en)?;
                 if re { Ok("same=1".to_string()) } else { Ok(hex(key.expose_key().as_raw_bytes())) }
             }, else Err(bad())))
@@ -45,6 +48,7 @@ pub fn exec_more(t: &[&str]) -> R {
             with_v!(b, V => {
                 let sk = key_of::<V, PkeSecret>(&sk).map_err(en)?;
                 let w = SealedKey::<V>::from_str(&s).map_err(en)?;
+                let _ = w.clone().to_string();
                 let key = w.unseal(&sk).map_err(en)?;
                 Ok(hex(key.expose_key().as_raw_bytes()))
             })
@@ -173,9 +177,15 @@ pub fn exec_more(t: &[&str]) -> R {
                 let half = if b.version() == 2 || b.version() == 4 { (enc.len() == 64 && enc[32..] == pkraw[..]) as u8 } else { 1 };
                 let tok = UnsealedToken::<V, Public, Raw>::new(Raw(b"m".to_vec())).sign(&sk).map_err(|e| format!("sign-{}", en(e)))?;
                 let tok2 = UnsealedToken::<V, Public, Raw>::new(Raw(b"m".to_vec())).sign(&sk.clone()).map_err(|e| format!("sign-{}", en(e)))?;
+                let det = matches!(b, Be::V2 | Be::V3 | Be::V4 | Be::V4S);
+                let clone_same = !det || tok.to_string() == tok2.to_string();
+                // a key re-parsed from its own serialisation signs the same bytes too
+                let sk3 = key_of::<V, Secret>(&enc).map_err(|e| format!("reparse-{}", en(e)))?;
+                let tok3 = UnsealedToken::<V, Public, Raw>::new(Raw(b"m".to_vec())).sign(&sk3).map_err(|e| format!("sign-{}", en(e)))?;
+                let reparse_same = !det || tok.to_string() == tok3.to_string();
                 let v1 = tok.verify(&pk, &paseto_core::validation::NoValidation::dangerous_no_validation()).is_ok();
                 let v2 = tok2.verify(&pk.clone(), &paseto_core::validation::NoValidation::dangerous_no_validation()).is_ok();
-                Ok(format!("half={} verifies={} clone_verifies={}", half, v1 as u8, v2 as u8))
+                Ok(format!("half={} verifies={} clone_verifies={} clone_same={} reparse_same={}", half, v1 as u8, v2 as u8, clone_same as u8, reparse_same as u8))
             })
         }
         // id string and PASERK text of the same key, for the oracle's independent hash
